@@ -115,13 +115,15 @@ Proof. eexists. eexists. eexists. split; vm_compute; reflexivity. Qed.
 Definition prog_F8 : list stmt := [SFlipJump (EInt 0) (EInt (-1)) ps].
 Example C02_F8_rejected : assemble_model 3 2 true prog_F8 = LibError KWflipValue.
 Proof. vm_compute. reflexivity. Qed.
-Example C02_F8_regression_witness :
-  exists segs words lbls,
-    assemble_model 3 2 false prog_F8 = Ok (segs, words, lbls) /\ ~ Denotes 3 (image_of segs words) prog_F8 lbls.
-Proof.
-  eexists. eexists. eexists. split; [vm_compute; reflexivity|].
-  intros (L & HL & _ & HF). cbn in HL. injection HL as <-.
-  inversion HF as [|? ? H1 _]; subst. cbn in H1.
-  destruct H1 as (vf & vj & _ & Ej & _ & _ & _ & Hw). injection Ej as <-.
-  destruct Hw as (_ & _ & [H0 _] & _). lia.
-Qed.
+(* without the asserts of b770ddf (strict_range = false) the program is still rejected, by the word-range check that
+   3bd0fc0 added to Writer.add_data: the mod-2^w wrap of fjm versions 2/3 (finding F8) cannot come back silently *)
+Example C02_F8_writer_backstop : assemble_model 3 2 false prog_F8 = LibError KWriterWordRange.
+Proof. vm_compute. reflexivity. Qed.
+
+(* the writer's check is reachable in the current code: a chain-link word holding a wflip-area address >= 2^w is emitted by
+   a `reserve` before the end of the segment is validated (w = 8: the wflip area starts at 256 = 2^w) *)
+Definition prog_word_range : list stmt :=
+  [SFlipJump (EInt 0) (EInt 0) ps; SSegment (EInt 208) ps; SWordFlip (EInt 0) (EInt 3) (EInt 0) ps;
+   SReserve (EInt 32) ps].
+Example C02_writer_word_range : assemble_model 3 3 true prog_word_range = LibError KWriterWordRange.
+Proof. vm_compute. reflexivity. Qed.
